@@ -32,7 +32,17 @@ LEDGER = os.path.join(HERE, 'contracts', 'LEDGER.json')
 KNOWN = os.path.join(HERE, 'known_findings.json')
 
 
+_tree = None
+
+
 def tree_hash():
+    global _tree
+    if _tree is None:
+        _tree = _tree_hash()
+    return _tree
+
+
+def _tree_hash():
     h = hashlib.sha256()
     for root in (os.path.join(REPO, 'numba_scfg'), os.path.join(HERE, 'pyvc'), os.path.join(HERE, 'rtc'),
                  os.path.join(HERE, 'spec'), os.path.join(HERE, 'contracts'), os.path.join(HERE, 'fin')):
@@ -161,7 +171,25 @@ def fuzz_task(args):
     import contracts  # noqa
     from rtc.fuzz import fuzz
     try:
-        return fuzz(qual, n, seed)
+        # result cache: the generated cases are a function of (contract, n, seed) and the outcome of the trees of /repo and of
+        # the checker, so the same key gives the same result (several properties run the contract search of the same function)
+        path = None
+        if os.environ.get('VERIF_NO_CACHE') != '1':
+            key = hashlib.sha256(('%s|%s|%s|%s' % (tree_hash(), qual, n, seed)).encode()).hexdigest()[:24]
+            path = os.path.join(CACHE_DIR, 'e2-%s.json' % key)
+            if os.path.exists(path):
+                with open(path) as fh:
+                    r = json.load(fh)
+                r['cached'] = True
+                return r
+        r = fuzz(qual, n, seed)
+        if path is not None and not r.get('error'):
+            os.makedirs(CACHE_DIR, exist_ok=True)
+            tmp = path + '.%d.tmp' % os.getpid()
+            with open(tmp, 'w') as fh:
+                json.dump(r, fh, default=str)
+            os.replace(tmp, path)
+        return r
     except Exception:
         return {'qual': qual, 'error': traceback.format_exc(), 'accepted': 0, 'failures': [], 'samples': [], 'tried': 0,
                 'known': 0, 'skipped': 0}
@@ -328,7 +356,8 @@ def run_fuzz(prop, pool, verdict, tier, seed):
     from pyvc.contract import REGISTRY
     quals = [q for q, c in REGISTRY.items() if prop in c.properties and c.runtime]
     n = 400 if tier == 'quick' else 5000
-    res = pool.map(fuzz_task, [(q, n, seed) for q in quals], chunksize=1)
+    # heap-mode contracts evaluate quantified clauses over whole region hierarchies: a case costs 20-50x a value-mode one
+    res = pool.map(fuzz_task, [(q, (n if not REGISTRY[q].heap or tier == 'quick' else 1500), seed) for q in quals], chunksize=1)
     out = {'evaluations': 0, 'functions': len(quals), 'samples': [], 'known_region_cases': 0}
     for r in res:
         if r.get('error'):
